@@ -322,19 +322,82 @@ def run_impl(binary, lines, scratch, timeout=600):
     return results
 
 
-def run_model(schema_path, lines, timeout=1200):
-    inp = "\n".join(json.dumps(l) for l in lines) + "\n"
-    p = subprocess.run([model_binary(), schema_path], input=inp.encode(), stdout=subprocess.PIPE, stderr=subprocess.PIPE, timeout=timeout)
+def _parse_model_out(text):
     results = {}
-    for l in p.stdout.decode("utf-8", "replace").split("\n"):
+    for l in text.split("\n"):
         try:
             r = json.loads(l)
         except ValueError:
             continue
-        if "id" in r:
+        if isinstance(r, dict) and "id" in r:
             results[r["id"]] = r
-    if p.returncode != 0:
-        raise RuntimeError("lmdmodel failed: " + p.stderr.decode("utf-8", "replace")[-2000:])
+    return results
+
+
+def run_model(schema_path, lines, timeout=1200, batch_timeout=240, line_timeout=20):
+    """the model's answers by id.  The whole stream is tried first; when that takes too long (the reference regex engine is
+    quadratic on some inputs) the lines are fed one at a time and a line the model does not answer within line_timeout
+    is answered 'unsupported' (the case is then not compared) - a slow model is not a verdict about the code."""
+    inp = "\n".join(json.dumps(l) for l in lines) + "\n"
+    try:
+        p = subprocess.run([model_binary(), schema_path], input=inp.encode(), stdout=subprocess.PIPE, stderr=subprocess.PIPE, timeout=min(timeout, batch_timeout))
+        if p.returncode != 0:
+            raise RuntimeError("lmdmodel failed: " + p.stderr.decode("utf-8", "replace")[-2000:])
+        return _parse_model_out(p.stdout.decode("utf-8", "replace"))
+    except subprocess.TimeoutExpired:
+        pass
+    import select
+    results = {}
+    skipped = set()
+
+    def start(upto):
+        proc = subprocess.Popen([model_binary(), schema_path], stdin=subprocess.PIPE, stdout=subprocess.PIPE, stderr=subprocess.DEVNULL)
+        # rebuild the state: everything before, except the lines that were too slow
+        for k in range(upto):
+            if k in skipped:
+                continue
+            if not feed(proc, lines[k], None, 300):
+                raise RuntimeError("lmdmodel: replaying the context after a slow line failed")
+        return proc
+
+    def feed(proc, line, sink, limit):
+        proc.stdin.write((json.dumps(line) + "\n" + json.dumps({"op": "ping", "id": 0}) + "\n").encode())
+        proc.stdin.flush()
+        end = time.time() + limit
+        buf = b""
+        while True:
+            left = end - time.time()
+            if left <= 0:
+                return False
+            r, _, _ = select.select([proc.stdout], [], [], left)
+            if not r:
+                return False
+            chunk = os.read(proc.stdout.fileno(), 1 << 16)
+            if not chunk:
+                return False
+            buf += chunk
+            while b"\n" in buf:
+                l, buf = buf.split(b"\n", 1)
+                try:
+                    obj = json.loads(l.decode("utf-8", "replace"))
+                except ValueError:
+                    continue
+                if isinstance(obj, dict) and "pong" in obj:
+                    return True
+                if sink is not None and isinstance(obj, dict) and "id" in obj:
+                    sink[obj["id"]] = obj
+
+    proc = start(0)
+    for k, line in enumerate(lines):
+        if feed(proc, line, results, line_timeout):
+            continue
+        proc.kill()
+        skipped.add(k)
+        if "id" in line:
+            results[line["id"]] = {"id": line["id"], "op": line.get("op"), "parse": "unsupported", "unsupported": True, "why": "the model did not answer within %d s" % line_timeout}
+        proc = start(k + 1)
+    proc.stdin.close()
+    proc.kill()
     return results
 
 
